@@ -7,8 +7,9 @@ import (
 	"unsafe"
 )
 
-func raceDisable()                   { runtime.RaceDisable() }
-func raceEnable()                    { runtime.RaceEnable() }
-func RaceAcquire(p unsafe.Pointer)   { runtime.RaceAcquire(p) }
-func RaceRelease(p unsafe.Pointer)   { runtime.RaceReleaseMerge(p) }
+func raceDisable()                 { runtime.RaceDisable() }
+func raceEnable()                  { runtime.RaceEnable() }
+func RaceAcquire(p unsafe.Pointer) { runtime.RaceAcquire(p) }
+func RaceRelease(p unsafe.Pointer) { runtime.RaceReleaseMerge(p) }
+
 const RaceEnabled = true
